@@ -69,7 +69,11 @@ namespace etl {
 /// Computes the value of base raised to the power exp
 /// \details https://en.cppreference.com/w/cpp/numeric/math/pow
 /// \ingroup cmath
-[[nodiscard]] constexpr auto pow(float base, int iexp) -> float { return etl::pow(base, static_cast<float>(iexp)); }
+[[nodiscard]] constexpr auto pow(float base, int iexp) -> float
+{
+    // through double like the std:: additional overload: float(iexp) rounds |iexp| > 2^24 and loses its parity
+    return static_cast<float>(etl::pow(static_cast<double>(base), static_cast<double>(iexp)));
+}
 
 /// Computes the value of base raised to the power exp
 /// \details https://en.cppreference.com/w/cpp/numeric/math/pow
